@@ -1253,5 +1253,43 @@ example : (match applyString exCtxMask0 exCtxLookup 4 with
 example : (applyLookupFwd exCtxFont 0 exCtxLookup 8 4 ((exCtxMask0.buf.info.take 4).map toG) 0).map (·.gid)
     = [9, 11, 12, 20, 2, 3] := by decide
 
-end RbModel.Gsub
+/-! ### Part 7 — NOT PROVED (statements only; nothing below is claimed)
 
+  (3) one application of a contextual subtable at the current glyph = `Spec.Subst.applySubtableAt`, as an instance of the
+      per-subtable simulation scheme (`SubSim` of Lemmas/GsubLigMixed.lean, with `StepGood` generalised: the resume index is
+      `out_len + n + 1 + growth`, not `out_len + 1`, the string may grow by `|records| · Gr`, and the invariant carries
+      `CtxG` for the OUT part — `LigInv` constrains the in part only):
+
+        theorem C06_context_step_refines_spec_NOT_PROVED (st : Subtable) (hst : st is .context1/2/3 or .chain1/2/3, every rule `n + 1 +
+            |records| · Gr ≤ MAX_CONTEXT_LENGTH`, nested lookups `NestedSts Gr`) (c x R …scan invariant…) :
+          match applySubtableAt c.font level c.lookupProps c.lookupMask st ((outP c.buf ++ inP c.buf).map toG) c.buf.outLen with
+          | none => ∃ b', applySubtable (recurseAt MAX_NESTING_LEVEL) true c st = .ok ({ c with buf := b' }, false) ∧ b' = c.buf
+          | some (gs', nxt) => ∃ b', applySubtable … c st = .ok ({ c with buf := b' }, true) ∧ Inv b' ∧
+              (outP b' ++ inP b').map projF = gs'.map piGF ∧ b'.outLen = nxt
+
+      What is there: the three matchers (`matchInput_relF`, `matchLookahead_relF`, `matchBacktrack_relF`), `applyLookup_sim`
+      (which already yields `b'.outLen = last sequence position + 1` and `b'.outLen = out_len + n + 1 + growth`, i.e. the value
+      of the Spec's resume formula `last + 1 + (growth − (last − lastIn))` — examples above), `firstRule_find` (first matching
+      rule wins).  What is missing: (a) `unsafe_to_break` / `unsafe_to_break_from_outbuffer` between the match and
+      `apply_lookup`: totality on the scan invariant and "changes glyph-flag bits only" (`setGlyphFlags_flagsOnlyOn` gives the
+      second half; `setGlyphFlags_interior_out` gives totality under `cluster ≤ U32MAX`), transported through `RelF` / `CtxG` /
+      `Plain`; (b) unfolding the Spec's local `ctxRule` for the six constructors and identifying `r.input.map (· == ·)` /
+      class / coverage predicates with `fnPreds fn 0 n`.
+
+  (4) the forward scan:
+
+        theorem C06_context_subst_refines_spec_NOT_PROVED (l : Lookup) (hall : every subtable contextual as in (3)) (hp : NoSkipFlags l.props)
+            (c : Ctx) (fuel : Nat) (…Part 5's hypotheses without monotone clusters / level…)
+            (hplain : ∀ x ∈ c.buf.info.take c.buf.len, Plain x ∧ CtxG x)
+            (hbudLen : c.buf.len * (1 + R · Gr) ≤ c.buf.maxLen) (hbudOps : c.buf.len * R ≤ c.buf.maxOps)   -- R = max records per rule
+            : ∃ c', applyString c l fuel = .ok c' ∧ c'.buf.successful = true ∧
+                (c'.buf.info.take c'.buf.len).map (fun x => (x.gid, x.cluster, featBits x.mask))
+                  = (applyLookupFwd c.font c.buf.level l c.lookupMask fuel ((c.buf.info.take c.buf.len).map toG) 0).map
+                      (fun g => (g.gid, g.cluster, featBits g.mask))
+
+      by the generic scheme with the potentials `out_len + |in| · (1 + R · Gr) ≤ max_len` and `|in| · R ≤ max_ops` (every
+      application consumes at least one input glyph, adds at most `R · Gr` glyphs and spends at most `R` operations).
+  (5) mixed lookups; ignore flags on the contextual lookup (`visibleFrom` / `visibleBefore` as filters); deleting nested
+      sequences (`delta < 0` branch of `apply_lookup`). -/
+
+end RbModel.Gsub
